@@ -54,3 +54,45 @@ def canon(c, v):
     """Operand value is the canonical representative of its residue: |v| < p/2."""
     h = c.p // 2
     return z3.And(v > -h, v < h)
+
+
+def guarded(c):
+    return c.rt.guard is not None
+
+
+def ie(c):
+    """ignore_errors() as a formula (concrete in every mode used here)."""
+    return formula(c.rt._ignore_errors)
+
+
+def isg(c):
+    """runtime.is_guard(): no guard, or the guard's value is 1."""
+    return c.is_guard()
+
+
+def on(c):
+    """The constraints added through add_constraint are in force for the adversary:
+    no guard, or the guard wire evaluates to 1."""
+    g = c.rt.guard
+    if g is None:
+        return z3.BoolVal(True)
+    return c.eva(g) == 1
+
+
+def n_ac(c, k=1):
+    """events of k calls of add_constraint: 1 triple, or (guarded) 1 dummy witness + 2 triples"""
+    return (0, k, 2 * k) if guarded(c) else (0, 0, k)
+
+
+def n_pvb(c, k=1):
+    """events of k calls of PrivValBool"""
+    a = n_ac(c, k)
+    return (0, k + a[1], a[2])
+
+
+def addc(*cs):
+    return tuple(sum(x) for x in zip(*cs))
+
+
+def bitsum(terms):
+    return z3.Sum([Z(0)] + [(1 << i) * t for i, t in enumerate(terms)])
